@@ -40,7 +40,7 @@ pub fn check() -> Check {
         spec: CheckSpec {
             prop: "C13",
             level: "fault_enumeration",
-            rule: "execution = one real node with 1-3 subscriptions (single-table and join queries) + a history of 4-14 transactions with logical matcher quiescence after each; crash images (copy of the database, its WAL and every subscription database) taken by hook callbacks at sub.created, sub.initial_committed, match.before_commit (n-th), sub.draining, sub.completed and by the harness while the subscription is idle; then a shutdown in the order of `corrosion agent` (tripwire, SubsManager::drop_handles, wait for counted tasks), in half of the executions with 2-6 transactions that were accepted before the shutdown began and commit while it proceeds (they queue behind a write connection the harness releases after tripping the wire); restart on the same files: same id served, snapshot rows == query on the database, snapshot change id == newest id of the change log >= the last id seen before shutdown, resuming from an earlier id replays exactly the changes seen before, a new change gets the next id, rows == query at quiescence; every crash image is booted with the real start-up path: subscription served only if its image was taken at/after sub.completed (then rows == query), otherwise GET by id gives 404 and its directory is gone; non-trivial = execution with a clean restart of a subscription that had received changes and at least 3 unclean images booted; distinct by hash of the history",
+            rule: "execution = one real node with 1-3 subscriptions (single-table and join queries) + a history of 4-14 transactions with logical matcher quiescence after each; crash images (copy of the database, its WAL and every subscription database) taken by hook callbacks at sub.created, sub.initial_committed, match.before_commit (n-th), sub.draining, sub.completed, by the harness while the subscription is idle, and again while the restored subscription runs in its second life; then a shutdown in the order of `corrosion agent` (tripwire, SubsManager::drop_handles, wait for counted tasks), in half of the executions with 2-6 transactions that were accepted before the shutdown began and commit while it proceeds (they queue behind a write connection the harness releases after tripping the wire); restart on the same files: same id served, snapshot rows == query on the database, snapshot change id == newest id of the change log >= the last id seen before shutdown, resuming from an earlier id replays exactly the changes seen before, a new change gets the next id, rows == query at quiescence; every crash image is booted with the real start-up path: subscription served only if its image was taken at/after sub.completed (then rows == query), otherwise GET by id gives 404 and its directory is gone; non-trivial = execution with a clean restart of a subscription that had received changes and at least 3 unclean images booted; distinct by hash of the history",
             assumptions: &[
                 "the shutdown order of the binary (command/agent.rs) is reproduced in process; OS-level signal handling is not part of the execution",
                 "crash model: process death with intact files; every image is taken while no transaction is in flight (the draining/completed images come after the in-flight requests of the shutdown have finished, as in the binary, which awaits its server handles before dropping the subscription handles)",
@@ -352,6 +352,18 @@ pub async fn one_execution(seed: u64) -> Result<ExecOut, String> {
             }
         }
     }
+    if !restored.is_empty() {
+        // the restored subscriptions are running again: files copied now belong to a run that
+        // did not finish, whatever the previous run had left in them
+        let d = tempfile::Builder::new().prefix("vh-c13-img-").tempdir().map_err(|e| e.to_string())?;
+        copy_dir(&node.conf.db.path.as_std_path().parent().unwrap().to_path_buf(), d.path()).map_err(|e| e.to_string())?;
+        if std::env::var_os("VH_C13_DEBUG").is_some() {
+            for s in subs_info.iter() {
+                eprintln!("DEBUG second-life: sub {} live_state={:?} image_state={:?}", s.id, sub_state(node.conf.db.path.as_std_path().parent().unwrap(), s.id), sub_state(d.path(), s.id));
+            }
+        }
+        images.lock().unwrap().push(Image { label: "second-life-running-idle".into(), dir: d });
+    }
     drop(restored);
     drop(sc);
     drop(graceful_shutdown(node, None, vec![]).await);
@@ -370,7 +382,13 @@ pub async fn one_execution(seed: u64) -> Result<ExecOut, String> {
         stat!(format!("image.{}", label.split('#').next().unwrap_or("")), 1);
         for (s, st) in subs_info.iter().zip(img_states.iter()) {
             let sub_dir = path.join("subscriptions").join(s.id.as_simple().to_string());
-            let clean = st.as_deref() == Some("completed");
+            // images taken while the node was fully running belong to an unfinished run of every
+            // subscription, whatever the files say about themselves; images taken during the
+            // shutdown are copied while the subscriptions finish one after the other, so there
+            // the copied file of each subscription tells whether that one had finished
+            // (the n-th match.before_commit can fall into the drain of the shutdown as well)
+            let during_shutdown = label.starts_with("sub.draining") || label.starts_with("sub.completed") || label.starts_with("match.before_commit");
+            let clean = during_shutdown && st.as_deref() == Some("completed");
             match subs::attach(&inode, &isc, s.id, None, false).await {
                 Ok(mut conn) => {
                     if !clean {
